@@ -27,7 +27,11 @@ func VerifC09Coop(senders, per, sameGroup int) {
 	_, err = s.getOwnDeviceChainKeyForGroup(ctx, g2)
 	verif_assume(err == nil)
 
+	// the receiver registers the sender's announcements made before any message is sealed
+	sndMD, rcvMD := verifLink(ctx, s, rcv, g)
+	verifLink(ctx, s, rcv, g2)
 	total := senders * per
+	plains := make([][]byte, total)
 	envs := make([][]byte, total)
 	grpOf := make([]*protocoltypes.Group, total)
 	okAll := true
@@ -39,12 +43,14 @@ func VerifC09Coop(senders, per, sameGroup int) {
 		base := t * per
 		verif_go("sender", func() {
 			for i := 0; i < per; i++ {
-				pay, _ := proto.Marshal(&protocoltypes.EncryptedMessage{Plaintext: verif_anyBytesNonNil("plain")})
+				pl := verif_anyBytesNonNil("plain")
+				pay, _ := proto.Marshal(&protocoltypes.EncryptedMessage{Plaintext: pl})
 				env, err := s.SealEnvelope(ctx, grp, pay)
 				if err != nil {
 					okAll = false
 					return
 				}
+				plains[base+i] = pl
 				envs[base+i] = env
 				grpOf[base+i] = grp
 			}
@@ -93,6 +99,26 @@ func VerifC09Coop(senders, per, sameGroup int) {
 			verif_assume(err == nil)
 			ck, err := s.getDeviceChainKeyForGroupAndDevice(ctx, gpk, md.Device())
 			verif_assert(err == nil && ck.Counter == uint64(n), "C09: the stored chain key stands at the number of messages sealed")
+		}
+	}
+	// every envelope sealed on g opens at the receiver to its own payload, attributed to the sealing device
+	devRaw, _ := sndMD.Device().Raw()
+	gpk, err := g.GetPubKey()
+	verif_assume(err == nil)
+	for k := 0; k < total; k++ {
+		if grpOf[k] != g {
+			continue
+		}
+		e, h, err := rcv.OpenEnvelopeHeaders(envs[k], g)
+		verif_assert(err == nil, "C09/C01: headers of a concurrently sealed envelope open")
+		if err != nil {
+			continue
+		}
+		verif_assert(verif_bytesEq(h.DevicePk, devRaw), "C09/C01: attributed to the sealing device")
+		msg, err := rcv.OpenEnvelopePayload(ctx, e, h, gpk, rcvMD.Device(), verif_cidN(k))
+		verif_assert(err == nil, "C09/C01: every concurrently sealed envelope opens at a member holding the chain key")
+		if err == nil {
+			verif_assert(verif_bytesEq(msg.Plaintext, plains[k]), "C09/C01: and opens to exactly its own payload")
 		}
 	}
 	verif_reach("C09.coop.ok")
